@@ -634,8 +634,6 @@ def dev_stmt(env, kind, name):
         ms = ["write", "line", "message", "clear", "display", "backlight", "glyph", "progress", "animate"]
         if o.get("backlight_pin"):
             ms.append("brightness")
-        if env.in_fn is not None:
-            ms.remove("animate")      # listed finding F-C06-lcd-animate-in-function
         m = rng.choice(ms)
         env.feat("LCD." + m)
         txt = lambda: gen_str(env, 1)[0]
@@ -1510,8 +1508,6 @@ def shapes_of(src: str):
         for n in ast.walk(f):
             if isinstance(n, ast.Call) and isinstance(n.func, ast.Attribute) and n.func.attr == "measure_distance":
                 out.add("fn-uses-ultrasonic")
-            if isinstance(n, ast.Call) and isinstance(n.func, ast.Attribute) and n.func.attr == "animate":
-                out.add("fn-lcd-animate")
             if isinstance(n, ast.Call) and isinstance(n.func, ast.Name) and n.func.id in order and order[n.func.id] > order[f.name]:
                 out.add("fn-forward-call")
     # a function defined ABOVE the RGBLed it drives: .on() / .off() / .blink() / .toggle() are then translated as Led methods
@@ -1602,10 +1598,6 @@ def shapes_of(src: str):
             out.add("for-not-range")
         if isinstance(n, ast.Constant) and isinstance(n.value, str) and not n.value.isprintable():
             out.add("non-printable-literal")
-        if isinstance(n, ast.BinOp) and isinstance(n.op, ast.Pow):
-            out.add("pow")
-        if isinstance(n, ast.AugAssign) and isinstance(n.op, ast.Pow):
-            out.add("pow")
         if isinstance(n, ast.ExceptHandler) and n.type is not None:
             out.add("named-except")
         if isinstance(n, ast.BinOp) and isinstance(n.op, ast.Add) and _is_strlit(n.left) and _is_strlit(n.right):
